@@ -8,8 +8,10 @@ import (
 	"time"
 
 	"github.com/google/gce-tcb-verifier/endorse"
+	epb "github.com/google/gce-tcb-verifier/proto/endorsement"
 	rpb "github.com/google/gce-tcb-verifier/proto/releases"
 	"google.golang.org/protobuf/encoding/prototext"
+	"google.golang.org/protobuf/proto"
 
 	"verifsim/core"
 	"verifsim/images"
@@ -329,6 +331,34 @@ func runC14(r *core.Run) {
 		}
 	} else if len(vcs.Results) != 0 {
 		r.Fail("result-recorded-≠1", "Result-without-commit", "%s: Result was called %d times although no commit succeeded", where, len(vcs.Results))
+	}
+	// whatever the script did, the committed head stays a faithful index (the C13 predicates):
+	// a failed or conflicting attempt must not leave a half-applied change behind
+	if raw, ok := vcs.Head[manifest]; ok {
+		m := &rpb.VMEndorsementMap{}
+		if err := prototext.Unmarshal(raw, m); err != nil {
+			r.Fail("stale-manifest-lost-update", "manifest-unparseable", "%s: head manifest does not parse: %v", where, err)
+		}
+		seenP, seenD := map[string]bool{}, map[string]bool{}
+		for _, e := range m.Entries {
+			d := fmt.Sprintf("%x", e.Digest)
+			if seenP[e.Path] || seenD[d] {
+				r.Fail("stale-manifest-lost-update", "duplicate-entry", "%s: head manifest lists %q / digest %s... twice", where, e.Path, d[:12])
+			}
+			seenP[e.Path], seenD[d] = true, true
+			if e.Path == "c14.binarypb" {
+				fb, ok := vcs.Head["/release/out/c14.binarypb"]
+				le, g := &epb.VMLaunchEndorsement{}, &epb.VMGoldenMeasurement{}
+				if !ok || proto.Unmarshal(fb, le) != nil || proto.Unmarshal(le.GetSerializedUefiGolden(), g) != nil || !bytes.Equal(g.GetDigest(), e.Digest) {
+					r.Fail("success-misreported", "entry-without-file", "%s: the manifest lists our endorsement but the file is missing or carries another digest", where)
+				}
+			}
+		}
+	}
+	if succeeded == 0 {
+		if _, leaked := vcs.Head["/release/out/c14.binarypb"]; leaked {
+			r.Fail("success-misreported", "partial-commit", "%s: no commit succeeded, yet the endorsement file is in the repository head", where)
+		}
 	}
 	if sc.writers > 0 && succeeded == 1 {
 		r.Probe("committed-after-concurrent-writer")
